@@ -9,6 +9,9 @@ from .rule import ok, bad, undecided
 
 # Audited exceptions to BL, one reason per line.  key = (function, site kind/what, held class)
 BL_EXCEPTIONS = {
+    ('desync::PipeContext::poll', 'desync-drop', 'PipeStream.core'):
+        'PipeContext::poll runs under PipeStream.core only when PipeStream::drop wakes the close notifier, and that wake precedes the release of '
+        'the on_drop closure, which owns an Arc<Desync<_>> of the same target (checked by ORD-C16 wake-before-release): the Arc upgraded here is never the last owner on that path',
     ('<desync::PipeStream as core::ops::drop::Drop>::drop', 'wake', 'PipeStream.core'):
         'the slot notify_stream_closed only ever holds the pipe\'s own PipeWaker (checked: every store is the producer closure\'s waker parameter); '
         'its wake schedules a job and never takes PipeStream.core (lock order checked by LO)',
@@ -209,6 +212,37 @@ def _job_drop_sites(ctx):
                     yield fn, bb, fn.local_ty(l)
 
 
+SCHED_WIDE = ('JobQueue.core', 'SchedulerCore.schedule', 'SchedulerCore.threads', 'SchedulerCore.max_threads', 'thread.busy')
+
+
+def _user_drop_sites(ctx):
+    """Drop terminators that can run code the crate does not control, other than queued jobs:
+      desync   a value that owns an `Arc<Desync<_>>`: if it is the last owner `Desync::drop` runs, which queues a job and *waits* for it;
+      user     a by-value local whose type is a type parameter of the function (the caller's closure, future, stream, payload) or a
+               `Waker` (a caller-supplied waker's destructor is the caller's code).
+    -> (fn, bb, kind, type)"""
+    for fn in ctx.F.crate_fns():
+        gen = set(g_['name'] for g_ in fn.generics if g_['kind'] == 'type')
+        tracked = {}
+        for i, l in enumerate(fn.locals):
+            ty = clean_ty(l['ty']).strip()
+            if ty.startswith(('&', '*')):
+                continue
+            if 'alloc::sync::Arc<desync::Desync<' in ty and 'Weak<' not in ty.split('alloc::sync::Arc<desync::Desync<')[0][-30:]:
+                tracked[i] = 'desync'
+            elif ty in gen or ty == 'core::task::wake::Waker' or ty == 'core::option::Option<core::task::wake::Waker>':
+                tracked[i] = 'user'
+        if not tracked:
+            continue
+        live = Held(fn, tracked)
+        for bb, b in enumerate(fn.blocks):
+            t = b['term']
+            if t and t['k'] == 'drop' and not b['cleanup'] and not t['pl']['p']:
+                l = t['pl']['l']
+                if l in tracked and l in live.at_term.get(bb, frozenset()):
+                    yield fn, bb, tracked[l], fn.local_ty(l)
+
+
 JOIN_HANDLE_TYPES = ('desync::SchedulerThread', 'std::thread::join_handle::JoinHandle')
 
 
@@ -320,6 +354,20 @@ def bl(ctx):
                 check(fn, s.bb, 'user-poll', s.what, s.loc)
     for fn, bb, ty in _job_drop_sites(ctx):
         check(fn, bb, 'job-drop', 'drop of a queued job', fn.loc(bb))
+    for fn, bb, kind, ty in _user_drop_sites(ctx):
+        if kind == 'desync':
+            check(fn, bb, 'desync-drop', 'release of an Arc<Desync<_>> (the last owner runs Desync::drop, which waits for the queue)', fn.loc(bb))
+        else:
+            # slot locks (a waker stored under the lock replaces - and drops - the previous one by design) are not scheduler-wide
+            H = ctx.held(fn)
+            here = set(H.held_at_term(bb)) | set(H0[fn.name])
+            wide = sorted(c for c in here if c in SCHED_WIDE)
+            counts['user-drop'] += 1
+            key = '%s|user-drop:%s' % (short(fn.name), clean_ty(ty)[:40])
+            if wide:
+                out.append(bad('BL', key, 'a value whose destructor is the caller\'s code (%s) is dropped while holding %s: a destructor that calls back into the scheduler dead-locks, one that panics poisons the lock' % (clean_ty(ty)[:50], ', '.join(wide)), loc=fn.loc(bb), fn=fn.name))
+            else:
+                out.append(ok('BL', key, 'dropped with no scheduler-wide lock held', loc=fn.loc(bb), fn=fn.name))
     floors = {'block': 5, 'job': 4, 'wake': 10, 'user-closure': 5}
     for k, v in floors.items():
         if counts[k] < v:
